@@ -334,7 +334,7 @@ fn run_uis(prog: &Prog, schedule: Vec<usize>, random: bool, seed: u64) -> Outcom
     use iceoryx2_bb_lock_free::mpmc::unique_index_set::UniqueIndexSet;
     use iceoryx2_bb_lock_free::mpmc::unique_index_set_enums::{ReleaseMode, ReleaseState, UniqueIndexSetAcquireFailure};
     let cap = hget(&prog.header, "cap");
-    let blk = Shared::new(RelocBlock::<UniqueIndexSet>::new(cap, 0));
+    let blk = Shared::new(RelocBlock::<UniqueIndexSet>::new_aliased(cap, 0, prog.threads.len()));
     let r = blk.get().range();
     let mut bodies: Vec<Box<dyn FnOnce(usize) + Send>> = vec![];
     for ops in prog.threads.clone() {
@@ -406,7 +406,7 @@ fn run_ruis(prog: &Prog, schedule: Vec<usize>, random: bool, seed: u64) -> Outco
     use iceoryx2_bb_lock_free::mpmc::robust_unique_index_set::{OwnerId, RobustUniqueIndexSet};
     use iceoryx2_bb_lock_free::mpmc::unique_index_set_enums::{ReleaseMode, ReleaseState, UniqueIndexSetAcquireFailure};
     let cap = hget(&prog.header, "cap");
-    let blk = Shared::new(RelocBlock::<RobustUniqueIndexSet>::new(cap, 0));
+    let blk = Shared::new(RelocBlock::<RobustUniqueIndexSet>::new_aliased(cap, 0, prog.threads.len()));
     let r = blk.get().range();
     // which owners are dead (set by the dying thread right after its last operation)
     let dead_flags: Arc<Vec<std::sync::atomic::AtomicBool>> = Arc::new((0..prog.threads.len()).map(|_| std::sync::atomic::AtomicBool::new(false)).collect());
@@ -507,7 +507,7 @@ fn run_container<const W: usize>(prog: &Prog, schedule: Vec<usize>, random: bool
     use iceoryx2_bb_lock_free::mpmc::unique_index_set_enums::{ReleaseMode, ReleaseState};
     let cap = hget(&prog.header, "cap");
     let words = |v: u64| -> [u64; W] { core::array::from_fn(|k| 100 * v + k as u64) };
-    let blk = Shared::new(RelocBlock::<Container<[u64; W]>>::new(cap, 0));
+    let blk = Shared::new(RelocBlock::<Container<[u64; W]>>::new_aliased(cap, 0, prog.threads.len()));
     let r = blk.get().range();
     let dead_flags: Arc<Vec<std::sync::atomic::AtomicBool>> = Arc::new((0..prog.threads.len()).map(|_| std::sync::atomic::AtomicBool::new(false)).collect());
     for (i, ops) in prog.threads.iter().enumerate() {
@@ -603,11 +603,11 @@ pub fn run(component: &str, prog: &Prog, schedule: Vec<usize>, random: bool, see
             _ => panic!("unsupported width"),
         },
         "spsc" => {
-            let blk = Shared::new(RelocBlock::<RelocatableIndexQueue>::new(cap, 0));
+            let blk = Shared::new(RelocBlock::<RelocatableIndexQueue>::new_aliased(cap, 0, prog.threads.len()));
             run_queue!(prog, blk, schedule, random, seed, |b: bool| format!("{b}"))
         }
         "overflow" => {
-            let blk = Shared::new(RelocBlock::<RelocatableSafelyOverflowingIndexQueue>::new(cap, 0));
+            let blk = Shared::new(RelocBlock::<RelocatableSafelyOverflowingIndexQueue>::new_aliased(cap, 0, prog.threads.len()));
             run_queue!(prog, blk, schedule, random, seed, opt)
         }
         _ => panic!("unknown component {component}"),
